@@ -113,6 +113,18 @@ def from_recipe(r):
 
 # ---------------------------------------------------------------------------------------------------------------- corpus
 
+def g1_sized_trailing_open():
+    """explicitly sized AND/NAND/... kinds with trailing pins left open (statement: an open pin reads constant 0)."""
+    out = []
+    for kind in PRIMS33:
+        ar = ref2.explicit_arity(kind)
+        if ar is None or ar < 3: continue
+        for nopen in range(1, ar - 1):
+            ins = [f'i{j}' for j in range(ar - nopen)] + [None] * nopen
+            out.append(NL(f'g1s_{kind}_open{nopen}', [(i, 'in') for i in ins if i] + [('z', 'out')], [('g', kind, ['z'], ins)]))
+    return out
+
+
 def g1_primitives():
     """every primitive kind (33 + aliases + generic names) x admitted connected/unconnected pin patterns x output used or not."""
     out = []
